@@ -278,17 +278,19 @@ def main(tier):
         fam, params = rec["family"], rec["params"]
         stateful = fam in STATEFUL
         degenerate = (fam == "Flip" and params["dims"] == [1]) or (fam == "Transpose" and params["axes"] == [0, 1])     # known findings: always exercised
-        if not stateful and not degenerate and tier == "quick" and rec["id"] % 3:
-            continue
+        # quick tier: a full history for every stateful family and a third of the others, a SHORT one (matvec, rmatvec and
+        # two more calls: aliasing with the input, input bytes, repeatability) for all the remaining configurations
+        short = not stateful and not degenerate and tier == "quick" and rec["id"] % 3 != 0
+        hlen = 4 if short else length
         nconf += 1
         for hno in range(nhist if stateful or tier == "thorough" else 1):
             seed_str = "%d/c15/%s/%s/%d" % (common.seed(), fam, json.dumps(params, sort_keys=True), hno)
             r = common.random.Random(seed_str)
             try:
-                out = run_history(fam, params, r, length)
+                out = run_history(fam, params, r, hlen)
             except Exception as e:
                 R.violation("history on %s %s raised %s: %s" % (fam, params, type(e).__name__, str(e)[:200]),
-                            {"family": fam, "params": params, "rng_seed": seed_str, "length": length, "problem": {"kind": "raised"}})
+                            {"family": fam, "params": params, "rng_seed": seed_str, "length": hlen, "problem": {"kind": "raised"}})
                 continue
             for k in tot:
                 tot[k] += out["stats"][k]
@@ -303,11 +305,11 @@ def main(tier):
                     R.known_finding(kid, [k for k in known if k["id"] == kid][0]["what"])
                     continue
                 R.violation("%s %s: %s at call %s of the history (%s)" % (fam, params, p["kind"], p.get("step"), p.get("call")),
-                            {"family": fam, "params": params, "rng_seed": seed_str, "length": length, "problem": p})
+                            {"family": fam, "params": params, "rng_seed": seed_str, "length": hlen, "problem": p})
             cid = len(items)
             if stateful or tier == "thorough" or rec["id"] % 6 == 0:
                 items.append((cid, rec, out["calls"]))
-                meta[cid] = (fam, params, seed_str)
+                meta[cid] = (fam, params, seed_str, hlen)
             for (f, x, y) in out["calls"]:
                 if np.abs(y).max(initial=0) > 0:
                     nontriv.add((rec["id"], f, x.tobytes()))
@@ -315,14 +317,14 @@ def main(tier):
     codes = coq_eval(list(items))
     t2 = time.time()
     for cid, c in codes.items():
-        fam, params, seed_str = meta[cid]
+        fam, params, seed_str, hl = meta[cid]
         R.violation("%s %s: output along a call history differs from the operator's matrix applied to the input (%s)" % (fam, params, "forward" if 1 in c else "adjoint"),
-                    {"family": fam, "params": params, "rng_seed": seed_str, "length": length, "tier": tier,
+                    {"family": fam, "params": params, "rng_seed": seed_str, "length": hl, "tier": tier,
                      "problem": {"kind": "output differs from the operator's matrix applied to the input"}})
     R.cov.update(obligations=len(thms) + len(items), discharged=len(thms) + len(items) - len(codes),
                  checker_cmd="make -C coq + coqc Props/C15.v (Print Assumptions) + coqc .work/C15/hist_*.v (vm_compute)",
                  theorems=thms, axioms_reported=axioms, evaluations=tot["calls"], distinct_nontrivial=len(nontriv),
-                 rule="one random history (length %d) of matvec/rmatvec/matmat/rmatmat/N-d @ per configuration (all stateful families, a third of the others), inputs from pools of 3 integer vectors per direction (so repeats occur), 30%% strided views, caller overwrites an earlier result with probability 0.4 per step; after every call: input bytes, all earlier results, aliasing with input / earlier results / operator arrays, equality with the first evaluation of the same input; outputs compared in Coq with the matrix extracted from another instance; non-trivial = distinct (configuration, direction, input) with non-zero output" % length,
+                 rule="one random history (length %d) of matvec/rmatvec/matmat/rmatmat/N-d @ per configuration (all stateful families, a third of the others; quick tier: a length-4 history for every remaining configuration), inputs from pools of 3 integer vectors per direction (so repeats occur), 30%% strided views, caller overwrites an earlier result with probability 0.4 per step; after every call: input bytes, all earlier results, aliasing with input / earlier results / operator arrays, equality with the first evaluation of the same input; outputs compared in Coq with the matrix extracted from another instance; non-trivial = distinct (configuration, direction, input) with non-zero output" % length,
                  configurations=nconf, histories_in_coq=len(items), **tot, t_python=round(t1 - t0, 1), t_coq=round(t2 - t1, 1))
     R.samples = [{"family": meta[i][0], "params": meta[i][1], "calls": len(items[i][2])} for i in list(meta)[::max(1, len(meta) // 6)]]
     if axioms and not set(axioms) <= common.ALLOWED_AXIOMS:
